@@ -132,7 +132,8 @@ def c04 (op : String) (args : List String) (impl : String) : Verdict :=
         (if implOk then
           let c := Rfc2865.userPasswordCipher md5 plain secret ra
           [("equals_rfc2865_ciphertext", impl == s!"ok {hexOf c}"),
-           ("length_16_max1_ceil", decide (c.length = 16 * max 1 (ceilDiv16 plain.length)))]
+           -- (the length of what the IMPLEMENTATION returned: two hex digits per octet after "ok ")
+           ("length_16_max1_ceil", decide (((impl.drop 3).toString.length) = 2 * (16 * max 1 (ceilDiv16 plain.length))))]
          else []))
     | _, _, _ => bad "newup-args"
   | "up", [a, secret, ra] =>
